@@ -102,6 +102,55 @@ CHECKS = {
         note=TB + " Reproducibility demanded for random_hypergraph/random_uniform_hypergraph only; admissible grids keep requested counts "
                   "feasible; a call must return within 30 s.",
         technique="TLA+ relations + TLC exhaustive check of sampler models; TLC validation of logged calls incl. a batch-wide seed-functionality history"),
+    "C06": container("all four kinds", "3 C06", "save_hypergraph + load_hypergraph (JSON and binary at random) are pure events after random "
+                     "prefixes of the replayed histories: the loaded object must be of the same class and equal in nodes, hyperedges "
+                     "(direction / time / layer), weightedness, weights and the three kinds of metadata (hyperedge metadata modulo weight/time/layer), "
+                     "and saving must leave the saved object unchanged. File readers: Persist.tla defines ParseHgr (token lines, header E N [fmt], "
+                     "weights iff fmt mod 10 = 1, comment/blank/node-weight lines ignored) and ReadHif (one hyperedge per incidence set, node/"
+                     "hyperedge/incidence records). TLC generates the files itself (Gen_Hgr/Gen_Hif: BFS over all small files with "
+                     "ParseRecoversListed and HifDesign, plus simulation) and validates the objects built by load_hypergraph(.hgr) and read_hif "
+                     "against them (Trace_C06R; HIF up to a bijection of node names, four node-label and three edge-name families). "),
+    "C09": dict(
+        level="model_checking", ref="3 C09",
+        text=("Matrices.tla defines incidence, weighted incidence, adjacency, per-order adjacency/degree/Laplacian (L_d = d*D_d - A_d), "
+              "dual adjacency, the adjacency tensor and the temporal adjacency as integer-valued operators indexed by nodes and "
+              "hyperedges; TLC checks AdjSymmetricZeroDiag, AdjIsBBt, AdjIsSumOfOrders, DualIsBtB, DegDIsFilteredDegree, "
+              "LapSymmetricZeroRowSum, LapIsIncidenceForm, TensorSymmetric, IncidenceRowsAndColumns and TempAdjIsSnapshotAdj in every "
+              "reachable state of the bounded containers (thorough: Hypergraph on 4 nodes unweighted / 3 nodes weights <= 2, "
+              "TemporalHypergraph on 3 nodes x 2 times), and validates every matrix returned by hypergraphx.linalg (densified, with the "
+              "returned mapping required only to be a bijection, incidence columns matched to hyperedges as a bag) for all hypergraphs on "
+              "3 nodes and (thorough) all 32768 on 4 nodes, random weighted/unweighted ones on 2-6 nodes, uniform ones on nodes 0..N-1 "
+              "for the tensor and random temporal hypergraphs at every time, under four label families (sparse ints, strings, 0..N-1, 1..N), "
+              "with isolated nodes, every order present or absent and both keep_isolated_nodes values."),
+        note=TB + " Entries must be integral (checked in Python) and are compared as integers by TLC. The Laplacian returns no mapping: "
+                  "its rows are read through the mapping of adjacency_matrix_by_order for the same order. Dual adjacency indices are read as "
+                  "positions in get_edges() (any consistent renumbering accepted for <= 6 hyperedges). Per-order matrices only on unweighted "
+                  "hypergraphs; compute_multiorder_laplacian, annealed_* and are_commuting are not covered.",
+        technique="TLA+ definitions + TLC exhaustive invariants; TLC validation of logged return values (one-call traces)"),
+    "C10": dict(
+        level="model_checking", ref="3 C10",
+        text=("Projections.tla defines the bipartite, clique, line (intersection / Jaccard >= s, exact rationals) and directed line "
+              "projections and the simplicial complex (downward closure) as operators over hypergraph states; TLC checks LineSymmetric, "
+              "LineViaSharedNode, LineMonotone, LineOneIsDualSupport and CliqueIsAdjSupport (cross-checks with Matrices.tla), "
+              "JaccardInUnitInterval, BipDegrees, SimplicialDownwardClosed, SimplicialIdempotent, DirLineNoSelfLoop, DirLineMonotone, "
+              "DirLineReversal and DirSimBounded in every reachable state of the bounded Hypergraph / DirectedHypergraph containers "
+              "(3 nodes), and validates the networkx graphs, id tables and weights returned by representations.projections and the "
+              "hypergraph returned by simplicial_complex for all hypergraphs on 3 nodes, all 4096 directed hypergraphs on 3 nodes "
+              "(thorough; seeded samples in quick), sampled 4-node and random 2-7 node ones with nested hyperedges of sizes 1..5 and "
+              "isolated nodes, thresholds s in {1,2,3,4} and {1/5..1}, weighted in {False, True}, under four label families."),
+        note=TB + " Graph vertices are numbered by the harness and bound to hyperedges only through the returned id table. Jaccard weights "
+                  "are compared as Fraction(w).limit_denominator(64), which must reproduce the float. With keep_isolated=False any vertex set "
+                  "between the edge endpoints and all nodes is accepted; weights of unweighted line graphs, the node set of the simplicial "
+                  "complex and its empty hyperedge are not judged.",
+        technique="TLA+ definitions + TLC exhaustive invariants; TLC validation of logged return values (one-call traces)"),
+    "C19": container("all four kinds for the filter", "3 C19", "filter_hypergraph is ONE mutating call whose allowed successors are FilterSucc of "
+                     "Derive.tla = the composition of the container's own removals (KeepRemoveDual and FilterSound checked by TLC on the design); "
+                     "criteria dictionaries over the model's keys with attributes missing from some items, both modes, both keep_edges. "
+                     "SVH.tla defines occurrences, Nocc/Kocc, the tested set, the exact binomial-tail p-value TailNum/N^(size*N) and the per-size "
+                     "step-up threshold. MC_SVH checks TailTotal, TailMonotone, TailMonotoneInP, KoccSum, TestedPartition, LowerSetInv and StepUpRule "
+                     "exhaustively on all exact-regime instances over 4-5 nodes. Trace_C19S validates the per-size tables of get_svh (max_order "
+                     "varied, mp in {False, True}, four label families): tested set, lower-set and parameter-dependence in all cases, p-values "
+                     "and validated flags exactly where the tails fit 32 bits (size 2 N<=5, size 3 N<=4, sizes 4-6 N<=3). "),
 }
 
 NOT_APPLICABLE = {
@@ -109,6 +158,13 @@ NOT_APPLICABLE = {
 
 PLANNED = ("not yet built in this revision of /verif (planned: TLA+ model + TLC trace validation, "
            "see DESIGN.md section 3); no claim is made")
+
+
+CHECKS["C06"] = dict(CHECKS["C06"], note=NOTE + " HIF records are compared as opaque canonical-JSON values produced by the harness; "
+                     "weighted .hgr files with repeated hyperedges, write_hif, and HIF documents lacking the nodes/edges arrays are not covered.")
+CHECKS["C19"] = dict(CHECKS["C19"], note=NOTE + " Outside the exact regime TLC emits the parameters (w, N, K_i, spanned nodes) and the same "
+                     "tail and threshold definitions are evaluated over Python Fractions (relative tolerance 1e-9; the two regimes are counted "
+                     "separately in the evidence); alpha is not varied (the code ignores it); get_svc is not covered.")
 
 
 def main():
